@@ -532,3 +532,88 @@ Proof.
   pose proof (g_read_trunc c n [] w s Hd Hs Hw) as R. cbn [app] in R.
   change (zlen (@nil bool)) with 0 in R. rewrite R. reflexivity.
 Qed.
+
+(* ================= decoders only move forward ================= *)
+Lemma skip_zeros_ge fuel b : forall pos q, skip_zeros fuel b pos = Ok q -> pos <= q.
+Proof.
+  induction fuel as [|f IH]; intros pos q H; [discriminate|].
+  cbn [skip_zeros] in H. destruct (getbit b pos) as [[|]|]; try discriminate.
+  - injection H as <-. lia.
+  - apply IH in H. lia.
+Qed.
+
+Lemma readue_ge b pos x n : readue b pos = Ok (x, n) -> pos < n.
+Proof.
+  unfold readue. destruct (skip_zeros (S (length b)) b pos) as [q|] eqn:Es; [|discriminate].
+  apply skip_zeros_ge in Es. cbn [bind].
+  destruct (q - pos >? 0) eqn:E.
+  - destruct (q + (q - pos) + 1 >? zlen b); [discriminate|].
+    destruct (getuint _); [|discriminate]. cbn [bind]. intros [= _ <-]. lia.
+  - destruct (Z.shiftl 1 (q - pos) - 1 =? 0); [|discriminate]. intros [= _ <-]. lia.
+Qed.
+
+Lemma readuie_loop_ge fuel b : forall pos c x n, readuie_loop fuel b pos c = Ok (x, n) -> pos < n.
+Proof.
+  induction fuel as [|f IH]; intros pos c x n H; [discriminate|].
+  cbn [readuie_loop] in H. destruct (getbit b pos) as [[|]|]; try discriminate.
+  - injection H as _ <-. lia.
+  - destruct (getbit b (pos + 1)); [|discriminate]. apply IH in H. lia.
+Qed.
+
+Theorem g_read_forward c b pos x n : g_read c b pos = Ok (x, n) -> pos < n.
+Proof.
+  destruct c; cbn [g_read].
+  - apply readue_ge.
+  - unfold readse. destruct (readue b pos) as [[cn p]|] eqn:E; [|discriminate]. cbn [bind].
+    apply readue_ge in E. destruct (cn mod 2 =? 0); intros [= _ <-]; lia.
+  - unfold readuie. apply readuie_loop_ge.
+  - unfold readsie, readuie. destruct (readuie_loop (S (length b)) b pos 1) as [[cn p]|] eqn:E; [|discriminate].
+    cbn [bind]. apply readuie_loop_ge in E. destruct (cn =? 0); [intros [= _ <-]; lia|].
+    destruct (getbit b p) as [[|]|]; try discriminate; intros [= _ <-]; lia.
+Qed.
+
+(* ================= a successful decode stays inside the data ================= *)
+Lemma getbit_ok_lt b pos x : getbit b pos = Ok x -> 0 <= pos -> pos < zlen b.
+Proof.
+  intros H Hp. unfold getbit in H. rewrite seq_getitem_nonneg in H by lia.
+  destruct (pos >=? zlen b) eqn:E; [discriminate|lia].
+Qed.
+
+Lemma skip_zeros_lt fuel b : forall pos q, 0 <= pos -> skip_zeros fuel b pos = Ok q -> q < zlen b.
+Proof.
+  induction fuel as [|f IH]; intros pos q Hp H; [discriminate|].
+  cbn [skip_zeros] in H. destruct (getbit b pos) as [[|]|] eqn:Eg; try discriminate.
+  - injection H as <-. eapply getbit_ok_lt; eauto.
+  - eapply IH; [|exact H]. lia.
+Qed.
+
+Lemma readuie_loop_within fuel b : forall pos c x n, 0 <= pos -> readuie_loop fuel b pos c = Ok (x, n) -> n <= zlen b.
+Proof.
+  induction fuel as [|f IH]; intros pos c x n Hp H; [discriminate|].
+  cbn [readuie_loop] in H. destruct (getbit b pos) as [[|]|] eqn:Eg; try discriminate.
+  - injection H as _ <-. apply getbit_ok_lt in Eg; lia.
+  - destruct (getbit b (pos + 1)); [|discriminate]. eapply IH; [|exact H]. lia.
+Qed.
+
+Lemma readue_within b pos x n : 0 <= pos -> readue b pos = Ok (x, n) -> n <= zlen b.
+Proof.
+  intros Hp. unfold readue. destruct (skip_zeros (S (length b)) b pos) as [q|] eqn:Es; [|discriminate].
+  pose proof (skip_zeros_ge _ _ _ _ Es). apply skip_zeros_lt in Es; [|lia]. cbn [bind].
+  destruct (q - pos >? 0) eqn:E.
+  - destruct (q + (q - pos) + 1 >? zlen b) eqn:E2; [discriminate|].
+    destruct (getuint _); [|discriminate]. cbn [bind]. intros [= _ <-]. lia.
+  - destruct (Z.shiftl 1 (q - pos) - 1 =? 0); [|discriminate]. intros [= _ <-]. lia.
+Qed.
+
+Theorem g_read_within c b pos x n : 0 <= pos -> g_read c b pos = Ok (x, n) -> n <= zlen b.
+Proof.
+  intros Hp. destruct c; cbn [g_read].
+  - apply readue_within; lia.
+  - unfold readse. destruct (readue b pos) as [[cn p]|] eqn:E; [|discriminate]. cbn [bind].
+    apply readue_within in E; [|lia]. destruct (cn mod 2 =? 0); intros [= _ <-]; lia.
+  - unfold readuie. apply readuie_loop_within. lia.
+  - unfold readsie, readuie. destruct (readuie_loop (S (length b)) b pos 1) as [[cn p]|] eqn:E; [|discriminate].
+    cbn [bind]. pose proof (readuie_loop_ge _ _ _ _ _ _ E). apply readuie_loop_within in E; [|lia].
+    destruct (cn =? 0); [intros [= _ <-]; lia|].
+    destruct (getbit b p) as [[|]|] eqn:Eg; try discriminate; intros [= _ <-]; apply getbit_ok_lt in Eg; lia.
+Qed.
